@@ -31,7 +31,7 @@ RULE = ('random model specs (DAGs and contractive feedback loops of explicit/imp
 MIN_JUDGED = {'quick': 120, 'thorough': 3000}
 REQUIRED_COUNTERS = ['obs:compute_totals-array', 'obs:compute_totals-dict', 'obs:jacvec-fwd', 'obs:jacvec-rev',
                      'obs:driver-totals', 'cell:mode=fwd', 'cell:mode=rev', 'cell:ln=direct-dense',
-                     'cell:ln=direct-csc', 'cell:ln=direct-dict', 'cell:ln=krylov', 'cell:ln=generated',
+                     'cell:ln=direct-csc', 'cell:ln=direct-dict', 'cell:ln=krylov', 'cell:ln=krylov-csr', 'cell:ln=generated',
                      'obs:cyclic-model', 'obs:implicit-model', 'obs:indexed-model', 'obs:rhs-cache-hit-parallel',
                      'obs:rhs-cache-hit-antiparallel']
 ASSUMPTIONS = ['R (omv/ref/flatmodel.py) is exact: its analytic Jacobian is re-validated against complex step on '
@@ -41,7 +41,8 @@ ASSUMPTIONS = ['R (omv/ref/flatmodel.py) is exact: its analytic Jacobian is re-v
 SHARD_TIMEOUT = {'quick': 1200, 'thorough': 5400}
 
 OPTS = dict(p_index=0.6, p_units=0.5, p_chain2=0.3, p_param=0.4, p_matfree=0.15, p_sparse=0.6, p_cycle=0.45,
-            p_implicit=0.35, p_scaled_copy=0.35, p_rhs_checking=0.6)
+            p_implicit=0.35, p_scaled_copy=0.35, p_rhs_checking=0.6, p_const_partials=0.35,
+            p_assembled_iter=0.4)
 TOL = 2e-7
 
 
@@ -68,9 +69,11 @@ def _set_root_ln(spec, kind):
         t['ln'] = {'type': 'direct', 'assemble_jac': True, 'jac_type': 'csc'}
     elif kind == 'krylov':
         t['ln'] = {'type': 'krylov'}
-    if kind in ('direct-dense', 'direct-csc') and has_mf:
+    elif kind == 'krylov-csr':
+        t['ln'] = {'type': 'krylov', 'assemble_jac': True, 'jac_type': 'csr'}
+    if kind in ('direct-dense', 'direct-csc', 'krylov-csr') and has_mf:
         return None
-    if kind == 'krylov' and t.get('nl', {}).get('type') == 'broyden':
+    if kind in ('krylov', 'krylov-csr') and t.get('nl', {}).get('type') == 'broyden':
         return None      # full-model Broyden documents that it requires a DirectSolver
     return sp
 
@@ -118,7 +121,7 @@ def run_case(case, acc):
     nontriv = cyclic or has_imp or indexed or spec['opts'].get('family') == 'rhs-cache'
     # configuration cells
     cells = [('generated', 'fwd'), ('generated', 'rev')]
-    extra = ['direct-dict', 'direct-dense', 'direct-csc', 'krylov']
+    extra = ['direct-dict', 'direct-dense', 'direct-csc', 'krylov', 'krylov-csr']
     rng2 = random.Random(case['seed'] + 7)
     nextra = 2 if case.get('tier', 'quick') == 'quick' else 4
     for kind in rng2.sample(extra, nextra):
